@@ -34,7 +34,15 @@ class CallMixin:
                     return VBool(True)
                 if not z3.is_true(z3.simplify(a)) and self.implied(p, z3.Not(a)):
                     return VBool(True)          # antecedent excluded by the facts of this path: the consequent may not even be defined
-                b = self.truth(self.ev(e.args[1], p, module), p)
+                # the consequent is evaluated under the antecedent (Optional values tested by it are narrowed)
+                n0 = len(p.pc)
+                p.pc.append(a)
+                try:
+                    b = self.truth(self.ev(e.args[1], p, module), p)
+                finally:
+                    learnt = p.pc[n0 + 1:]
+                    del p.pc[n0:]
+                    p.pc.extend(z3.Implies(a, f_) for f_ in learnt)
                 return VBool(z3.Implies(a, b))
             if f.id == "ite":
                 c = self.truth(self.ev(e.args[0], p, module), p)
@@ -45,7 +53,7 @@ class CallMixin:
                     raise Unsupported("ite over unmergeable values")
                 return m
             if f.id in self.spec_function_names and f.id not in p.env:
-                args = [self.ev(a, p, module) for a in e.args]
+                args = [self.narrow(self.ev(a, p, module), p) for a in e.args]
                 return self.spec_apply(f.id, args, p)
         fv = self.ev(f, p, module)
         args = []
@@ -59,6 +67,12 @@ class CallMixin:
                 raise Unsupported("**kwargs")
             kwargs[kw.arg] = self.ev(kw.value, p, module)
         return self.apply(fv, args, kwargs, p, module, e)
+
+    def narrow(self, v, p):
+        """An Optional value on a path (or under an antecedent) that excludes None is the value itself."""
+        if isinstance(v, VOpt) and self.implied(p, z3.Not(v.isnone)):
+            return v.val
+        return v
 
     def apply(self, fv, args, kwargs, p, module, node):
         if isinstance(fv, VFunc):
@@ -87,6 +101,10 @@ class CallMixin:
             return self.construct(fv.cls, args, kwargs, p, module, node)
         if isinstance(fv, VOpaque):
             raise Unsupported(f"call of opaque {fv.what}")
+        if isinstance(fv, (VSym, VInt, VBool, VStr, VBytes, VNone, VList, VTuple, VSet)) or \
+                (isinstance(fv, VObj) and self.prog.find_method(fv.cls, "__call__") is None):
+            # calling a value that is not callable (e.g. a local that shadows a builtin): TypeError
+            raise Raised(VExc("TypeError", {"lineno": getattr(node, "lineno", 0), "implicit": True}))
         raise Unsupported(f"call of {fv!r}")
 
     # ------------------------------------------------------------------ spec functions
@@ -243,7 +261,7 @@ class CallMixin:
     def call_builtin(self, name, args, kwargs, p, module, node, recv=None):
         ln = getattr(node, "lineno", 0)
         if name == "len":
-            v = args[0]
+            v = self.narrow(args[0], p)
             if isinstance(v, VSet):
                 raise Unsupported("len(set)")
             if isinstance(v, VStr):
@@ -337,6 +355,8 @@ class CallMixin:
             return VInt(z3.If(a >= 0, a, -a))
         if name == "hasattr":
             return VBool(fresh(B, "hasattr"))
+        if name == "re.compile":
+            return VOpaque("regex")     # the pattern's language is not modelled here (decided by the automata stage of the text checks)
         raise Unsupported(f"builtin {name}")
 
     def sym_setattr(self, obj, attr, val, p):
@@ -381,6 +401,17 @@ class CallMixin:
             return z3.BoolVal(any(isinstance(c, type(v.cls)) and self.prog.is_subclass(v.cls, c) for c in classes))
         if isinstance(v, VSym):
             cls_of = self.func("class_of", Obj, I)
+            if v.static_cls is not None:
+                # the declared class bounds the dynamic class (closed world): decide statically where the hierarchy allows
+                mine = set(c.key for c in self.prog.subclasses(v.static_cls))
+                theirs = set()
+                for c in classes:
+                    if not isinstance(c, str):
+                        theirs |= set(sc.key for sc in self.prog.subclasses(c))
+                if not (mine & theirs):
+                    return z3.BoolVal(False)
+                if mine <= theirs:
+                    return z3.BoolVal(True)
             ids = []
             for c in classes:
                 if isinstance(c, str):
@@ -461,6 +492,11 @@ class CallMixin:
     # ------------------------------------------------------------------ methods of builtin types
     def call_method(self, recv, name, args, kwargs, p, module, node):
         ln = getattr(node, "lineno", 0)
+        if isinstance(recv, VOpaque) and recv.what == "regex":
+            if name in ("match", "fullmatch", "search"):
+                # total on str / bytes subjects; a match object or None - both outcomes are followed
+                return VOpt(fresh(B, "nomatch"), VOpaque("match"))
+            raise Unsupported(f"regex.{name}")
         if isinstance(recv, VDict):
             if name != "get" or not args:
                 raise Unsupported(f"dict.{name}")
@@ -475,12 +511,20 @@ class CallMixin:
                 return self.decode_bytes(recv, args, kwargs, p, ln)
             if name == "hex":
                 return VStr(fresh(Str, "hex"))
+            if name == "split" and len(args) == 1:
+                t = fresh(SeqSeq, "split")
+                p.pc.append(z3.Length(t) >= 1)      # bytes.split(sep) returns at least one piece
+                return VList(t=t, elem="bytes")
             raise Unsupported(f"bytes.{name}")
         if isinstance(recv, VStr):
             if name == "encode":
                 return self.encode_str(recv, args, kwargs, p, ln)
             if name in ("format", "strip", "lower", "upper", "lstrip", "rstrip"):
                 return VStr(fresh(Str, name))
+            if name == "split" and len(args) == 1:
+                t = fresh(SeqStr, "split")
+                p.pc.append(z3.Length(t) >= 1)      # str.split(sep) returns at least one piece
+                return VList(t=t, elem="str")
             raise Unsupported(f"str.{name}")
         if isinstance(recv, VList):
             if name == "copy":
@@ -498,7 +542,15 @@ class CallMixin:
         enc_ok = self.func("encodable", Str, B)
         s = self.str_term(recv)
         if recv.lit is None:
-            self.may_raise(p, z3.Not(enc_ok(s)), "UnicodeEncodeError", ln)
+            try:
+                self.may_raise(p, z3.Not(enc_ok(s)), "UnicodeEncodeError", ln)
+            except Raised as r_:
+                # UnicodeEncodeError.start / .end delimit the offending characters inside the text
+                st_, en_ = fresh(I, "ue_start"), fresh(I, "ue_end")
+                p.pc.append(z3.And(0 <= st_, st_ < en_, en_ <= self.func("str_len", Str, I)(s)))
+                r_.exc.fields["start"] = VInt(st_)
+                r_.exc.fields["end"] = VInt(en_)
+                raise
         r = VBytes(utf8(s), "bytes")
         self.note_bytes(r.t, p)
         if recv.lit is not None:
@@ -683,34 +735,65 @@ class CallMixin:
         p.pc = q.pc
         p.obls = q.obls
         p.ghost = q.ghost
-        self.adopt_env(saved_env, bound, q.env, p)
+        val2 = self.adopt_env(saved_env, bound, q.env, p, val if not isinstance(val, VExc) else None)
         if status == "raise":
             raise Raised(val)
-        return val
+        return val2 if val2 is not None else val
 
-    def adopt_env(self, saved_env, bound, callee_env, p):
-        """After an inlined call the callee path `q` was a deep copy: map mutated heap objects back by identity."""
-        # q.env was deep-copied from `bound` at each fork, so object identity was lost: rebuild by position.
-        mapping = {}
-        for k, v in bound.items():
-            if k in callee_env:
-                self.map_objects(v, callee_env[k], mapping)
+    def adopt_env(self, saved_env, bound, callee_env, p, val=None):
+        """After an inlined call the callee path was a deep copy of the caller's objects (forks copy the heap): write the
+        callee's final field values back into the caller's objects.  Copies keep the `oid` of the object they were
+        copied from, so the correspondence is exact; references to copies (in written-back fields, in objects created
+        by the callee and in the return value) are redirected to the caller's originals, which keeps aliasing intact
+        (e.g. child._parent is the caller's writer, not a copy of it)."""
+        originals, copies = {}, {}
+        self.collect_objects(list(bound.values()), originals)
+        self.collect_objects(list(callee_env.values()) + ([val] if val is not None else []), copies)
         p.env = saved_env
-        for old_obj, new_obj in mapping.values():
-            old_obj.fields.clear()
-            old_obj.fields.update(new_obj.fields)
+        seen = set()
+        for oid, a in originals.items():
+            b = copies.get(oid)
+            if b is None or b is a:
+                continue
+            newf = {k: self.remap(v, originals, seen) for k, v in b.fields.items()}
+            a.fields.clear()
+            a.fields.update(newf)
+        return self.remap(val, originals, seen) if val is not None else None
 
-    def map_objects(self, a, b, mapping):
-        if isinstance(a, VObj) and isinstance(b, VObj) and a.cls is b.cls:
-            if id(a) in mapping:
-                return
-            mapping[id(a)] = (a, b)
-            if not a.cls.frozen:
-                for k in a.fields:
-                    if k in b.fields:
-                        self.map_objects(a.fields[k], b.fields[k], mapping)
-        elif isinstance(a, VOpt) and isinstance(b, VOpt):
-            self.map_objects(a.val, b.val, mapping)
+    def collect_objects(self, vals, out):
+        stack = list(vals)
+        while stack:
+            v = stack.pop()
+            if isinstance(v, VOpt):
+                stack.append(v.val)
+            elif isinstance(v, (VTuple, VList)) and v.items is not None:
+                stack.extend(v.items)
+            elif isinstance(v, VObj):
+                if v.oid in out:
+                    continue
+                out[v.oid] = v
+                stack.extend(v.fields.values())
+
+    def remap(self, v, originals, seen):
+        if isinstance(v, VObj):
+            a = originals.get(v.oid)
+            if a is not None:
+                return a
+            if id(v) not in seen:
+                seen.add(id(v))
+                for k in list(v.fields):
+                    v.fields[k] = self.remap(v.fields[k], originals, seen)
+            return v
+        if isinstance(v, VOpt):
+            nv = self.remap(v.val, originals, seen)
+            return v if nv is v.val else VOpt(v.isnone, nv)
+        if isinstance(v, VTuple):
+            items = [self.remap(x, originals, seen) for x in v.items]
+            return v if all(x is y for x, y in zip(items, v.items)) else VTuple(items)
+        if isinstance(v, VList) and v.items is not None:
+            items = [self.remap(x, originals, seen) for x in v.items]
+            return v if all(x is y for x, y in zip(items, v.items)) else VList(items=items)
+        return v
 
     # ------------------------------------------------------------------ call by contract
     def spec_path(self, p, env, old=None):
@@ -733,7 +816,22 @@ class CallMixin:
         ln = getattr(node, "lineno", 0)
         self.used_contracts.add(c.key)
         site = self.call_site_name(fi)
+        # an Optional value that the path has already tested against None is passed as the value itself
+        for k_, av in list(bound.items()):
+            if isinstance(av, VOpt) and not p.spec:
+                ann = next((self.ann_text(a) for pn, a, _ in fi.params() if pn == k_), "")
+                ann = c.params.get(k_, ann)
+                if "Optional" not in ann and ann not in ("", "Any", "t.Any", "object"):
+                    if not self.implied(p, z3.Not(av.isnone)):
+                        # None where the callee's annotation admits no None: the callee fails with TypeError / AttributeError
+                        self.may_raise(p, av.isnone, "TypeError", ln)
+                    bound[k_] = av.val
         pre_env = self.snapshot(bound)
+        # CPython: len() of any bytes / bytearray / memoryview object is at most sys.maxsize (Py_ssize_t, 2^63 - 1)
+        for av in bound.values():
+            for bv in ([av] + (list(av.fields.values()) if isinstance(av, VObj) else [])):
+                if isinstance(bv, VBytes) and not p.spec:
+                    p.pc.append(z3.Length(bv.t) <= z3.IntVal(9223372036854775807))
         # 1. preconditions are obligations of the caller
         qpre = self.spec_path(p, dict(bound), old=pre_env)
         for i, r in enumerate(c.requires):
@@ -790,7 +888,27 @@ class CallMixin:
         if cur is not None and not p.spec:
             for w in c.witness:
                 if f"{fi.name}.{w}" in cur.bind_witness:
-                    p.ghost[cur.bind_witness[f"{fi.name}.{w}"]] = env[w]
+                    g = cur.bind_witness[f"{fi.name}.{w}"]
+                    p.ghost[g] = env[w]
+                    # the k-th binding of g on this path is also available as g_k (several calls to the same callee)
+                    k = 1
+                    while f"{g}_{k}" in p.ghost:
+                        k += 1
+                    p.ghost[f"{g}_{k}"] = env[w]
+                    # ... and as g_sK, K the position of this call among the calls to that callee in the source text of
+                    # the function under verification (stable across paths with optional parts)
+                    if len(self.cur_fi_stack) == 1 and node is not None:
+                        sites = sorted([n for n in ast.walk(self.cur_fi_stack[0].node) if isinstance(n, ast.Call) and
+                                        ((isinstance(n.func, ast.Attribute) and n.func.attr == fi.name) or (isinstance(n.func, ast.Name) and n.func.id == fi.name))],
+                                       key=lambda n: (n.lineno, n.col_offset))
+                        if node in sites:
+                            p.ghost[f"{g}_s{sites.index(node) + 1}"] = env[w]
+                        elif fi.name == "__exit__":
+                            # the implicit __exit__ of the K-th `with` statement of the function (source order)
+                            withs = sorted([n for n in ast.walk(self.cur_fi_stack[0].node) if isinstance(n, ast.With)], key=lambda n: (n.lineno, n.col_offset))
+                            for k_, wn in enumerate(withs):
+                                if wn.lineno == getattr(node, "lineno", -1):
+                                    p.ghost[f"{g}_s{k_ + 1}"] = env[w]
         return result
 
     exc_field_specs = {}
@@ -856,6 +974,16 @@ def _p_drop(eng, args, p):
     return VBytes(z3.Extract(s, k, z3.Length(s) - k), "bytes")
 
 
+def _p_utf8(eng, args, p):
+    """utf8(text): the octets str.encode produces (the same uninterpreted function the model of str.encode uses)."""
+    return VBytes(eng.func("utf8", Str, S)(eng.str_term(args[0])), "bytes")
+
+
+def _p_unutf8(eng, args, p):
+    """unutf8(octets): the text bytes.decode produces for well-formed UTF-8 (the same uninterpreted function the model of bytes.decode uses)."""
+    return VStr(eng.func("unutf8", S, Str)(args[0].t))
+
+
 def _p_is_bytes(eng, args, p):
     s = args[0].t
     q = z3.Int("q!ib")
@@ -898,6 +1026,6 @@ def _p_ids_below(eng, args, p):
     return VBool(z3.ForAll([x], z3.Implies(z3.Select(args[0].t, x), z3.And(x >= 1, x < eng.as_int(args[1])))))
 
 
-SPEC_PRIMS = {"ids_below": _p_ids_below, "nil_obj": _p_nil_obj, "cons_obj": _p_cons_obj, "cat_obj": _p_cat_obj, "cat": _p_cat, "seq1": _p_seq1, "empty": _p_empty, "take": _p_take, "drop": _p_drop,
+SPEC_PRIMS = {"unutf8": _p_unutf8, "utf8": _p_utf8, "ids_below": _p_ids_below, "nil_obj": _p_nil_obj, "cons_obj": _p_cons_obj, "cat_obj": _p_cat_obj, "cat": _p_cat, "seq1": _p_seq1, "empty": _p_empty, "take": _p_take, "drop": _p_drop,
               "is_bytes": _p_is_bytes, "empty_set": _p_empty_set, "set_add": _p_set_add, "set_del": _p_set_del,
               "subset": _p_subset}
